@@ -1,14 +1,18 @@
 package fn
 
 import (
+	"encoding/json"
 	"fmt"
+	"hash/fnv"
 	"math"
 	"math/rand"
+	"sync/atomic"
 	"time"
 
 	"github.com/go-logr/logr"
 	corev1 "k8s.io/api/core/v1"
 	metav1 "k8s.io/apimachinery/pkg/apis/meta/v1"
+	"k8s.io/apimachinery/pkg/types"
 
 	v1 "github.com/DataDog/extendeddaemonset/api/v1alpha1"
 	"github.com/DataDog/extendeddaemonset/controllers/extendeddaemonsetreplicaset/strategy"
@@ -331,6 +335,54 @@ func (e *C06) abstract(c c06Case, v c06Verdict) string {
 
 func (e *C06) judge(ctx *core.Ctx, c c06Case, now time.Time) {
 	ann, params := c06Build(c, now)
+	// One point in two: the same controller process already synced this replica set a while ago, when the very same
+	// pod objects (same names, UIDs and resourceVersions: nothing about them changed since) were younger - typically
+	// still within maxSlowStartDuration. The verdict of the sync judged here is a function of what it reads and of the
+	// present instant; whatever the process kept from the earlier sync must not show in it.
+	seq := atomic.AddInt64(&c06Seq, 1)
+	stamp := func(p *strategy.Parameters) {
+		for ni, pod := range p.PodByNodeName {
+			if pod == nil {
+				continue
+			}
+			pod.Name = fmt.Sprintf("%s-%d", pod.Name, seq)
+			pod.UID = types.UID(fmt.Sprintf("uid-%d-%s", seq, ni.Node.Name))
+			b, _ := json.Marshal(pod)
+			h := fnv.New64a()
+			_, _ = h.Write(b)
+			pod.ResourceVersion = fmt.Sprint(h.Sum64() % 1000000007)
+		}
+		p.Replicaset.UID = types.UID(fmt.Sprintf("uid-rs-%d", seq))
+	}
+	stamp(params)
+	if ctx.Rand.Intn(2) == 0 {
+		ds := []time.Duration{20 * time.Second, 2 * time.Minute, 10 * time.Minute}
+		if c.MaxSlow != nil {
+			for _, ps := range c.Pods {
+				if ps.StartAgo > *c.MaxSlow {
+					ds = append(ds, ps.StartAgo-*c.MaxSlow/2, ps.StartAgo-*c.MaxSlow/2)
+				}
+			}
+		}
+		d := ds[ctx.Rand.Intn(len(ds))]
+		ann0, params0 := c06Build(c, now)
+		for ni, pod := range params0.PodByNodeName {
+			if pod == nil {
+				continue
+			}
+			for nj, q := range params.PodByNodeName {
+				if q != nil && nj.Node.Name == ni.Node.Name {
+					pod.Name, pod.UID, pod.ResourceVersion = q.Name, q.UID, q.ResourceVersion
+				}
+			}
+		}
+		params0.Replicaset.UID = params.Replicaset.UID
+		func() {
+			defer func() { _ = recover() }()
+			_ = strategy.VerifManageCanaryStatus(ann0, params0, now.Add(-d))
+		}()
+		ctx.Count("C06.points-preceded-by-an-earlier-sync-of-the-same-pods")
+	}
 	var res *strategy.Result
 	pan := ""
 	func() {
@@ -420,6 +472,8 @@ func (e *C06) judge(ctx *core.Ctx, c c06Case, now time.Time) {
 		c06After(ctx, c, res, now, attrs)
 	}
 }
+
+var c06Seq int64
 
 var c06After func(ctx *core.Ctx, c c06Case, res *strategy.Result, now time.Time, attrs map[string]string)
 
